@@ -98,6 +98,13 @@ def check_codec(R, obj, kindval):
 
 
 def check_unsigned_decode(R, tag, kind, cls, content):
+    # history: the same content octets decoded as a SIGNED application type first
+    # (NsapAddress, tag 0x45) must not influence how the unsigned types read them
+    try:
+        x690.decode(bytes([0x45, len(content)]) + content)[0].value
+        x690.decode(bytes([0x02, len(content)]) + content)[0].value
+    except Exception:  # noqa: BLE001
+        pass
     raw = bytes([tag, len(content)]) + content
     want = int.from_bytes(content, "big", signed=False)
     obj, _ = x690.decode(raw)
